@@ -126,13 +126,18 @@ def collect(pid, tier, seed, d):
                 f.write(json.dumps(scns[i]) + "\n")
         fails2, _, _ = judge_histories(d, "TPPool", rp, pid, shards=2, heap="3g")
         again = {f[0] for f in fails2 if f[1] == pid}
-        hist2 = os.path.join(d, "pool_reexec.ndjson")
-        run_harness(binp, ["pool", "--out", hist2, "--seed", str(seed + 1), "-x", "replay=" + rp],
-                    env={"GORACE": "log_path=%s halt_on_error=0 exitcode=0" % racelog}, tolerate_crash=True)
-        if not os.path.exists(hist2):
-            open(hist2, "w").close()
-        fails3, _, _ = judge_histories(d, "TPPool", hist2, pid, shards=2, heap="3g")
-        reproduced = {f[0] for f in fails3 if f[1] == pid}
+        # re-execute the failing scenarios (up to four times: a deadlock that depends on a race does not come back every time)
+        reproduced = set()
+        for k in range(4):
+            hist2 = os.path.join(d, "pool_reexec%d.ndjson" % k)
+            run_harness(binp, ["pool", "--out", hist2, "--seed", str(seed + 1 + k), "-x", "replay=" + rp],
+                        env={"GORACE": "log_path=%s halt_on_error=0 exitcode=0" % racelog}, tolerate_crash=True)
+            if not os.path.exists(hist2):
+                open(hist2, "w").close()
+            fails3, _, _ = judge_histories(d, "TPPool", hist2, pid, shards=2, heap="3g")
+            reproduced |= {f[0] for f in fails3 if f[1] == pid}
+            if reproduced >= set(bad_ids):
+                break
         for scn_id, prop, clauses in fails:
             if prop != pid:
                 continue
